@@ -78,7 +78,7 @@ def rule_cli1(prog, rep, tier, anchor="__main__.main"):
     """CLI-1: where main() calls a worker with **<all dests>, dests(sub) are parameters of the worker and every
     required parameter of the worker is a dest."""
     model = cli_model(prog)
-    fi = prog.fn(anchor)
+    fi = prog.inl(prog.fn(anchor))
     n = 0
     for call in ast.walk(fi.node):
         if not isinstance(call, ast.Call):
